@@ -12,9 +12,16 @@
 //!     (`SCHED`, F-level).  Volume, a stalled consumer (> capacity rows queued, bound of
 //!     `C15_chan_bounded`), a slow producer with gaps > the 50 ms poll, aggregates (nothing before EOF).
 //!   * subprocess: the real binary on pipes (paced producer, unread stdout, 0 … 200 000 lines).
-//! No real-time deadline tighter than 5 s is ever asserted.
-//! Oracle self-test: `AGVERIF_C15_MUTANT=bufsink agverif C15 …` puts a 64 KiB BufWriter in front of
-//! the sink; the stream family must then report C15/buffering-delay.
+//!   * trickle (in-process and binary): complete lines arrive steadily with gaps well *under* the
+//!     50 ms poll, nobody waits for output; while input is still flowing every line released ≥ 1 s
+//!     earlier must already be visible to the consumer.  (The lock-step families above give the
+//!     renderer an idle period after every line; a renderer that hands rows over only when its
+//!     channel has been idle passes them and fails here.)
+//! No real-time deadline tighter than 5 s is ever asserted in the lock-step families, none tighter
+//! than 1 s (and then only while further input keeps arriving) in the trickle family.
+//! Oracle self-tests: `AGVERIF_C15_MUTANT=bufsink agverif C15 …` puts a 64 KiB BufWriter in front of
+//! the sink (the stream family must report C15/buffering-delay); `…=idleflush` a layer that passes
+//! bytes on only after 50 ms without a write (only the trickle family can and must report it).
 use crate::enc::hexb;
 use crate::imp;
 use crate::rng::Rng;
@@ -223,6 +230,64 @@ impl Write for Sink {
     fn flush(&mut self) -> io::Result<()> {
         Ok(())
     }
+}
+
+/// Oracle self-test (`AGVERIF_C15_MUTANT=idleflush`): a consumer-side layer that hands bytes on
+/// only when nothing has been written for 50 ms (or 8 KiB have piled up, or at the end) — the
+/// behaviour of a renderer that flushes on the idle poll.  The lock-step families cannot see it;
+/// the trickle family must.
+pub struct IdleFlush {
+    inner: Sink,
+    st: Arc<Mutex<(Vec<u8>, Instant, bool)>>,
+}
+
+impl IdleFlush {
+    pub fn new(inner: Sink) -> IdleFlush {
+        let st = Arc::new(Mutex::new((Vec::new(), Instant::now(), false)));
+        let st2 = st.clone();
+        let mut out = inner.clone();
+        std::thread::spawn(move || loop {
+            std::thread::sleep(Duration::from_millis(5));
+            let mut g = st2.lock().unwrap();
+            if !g.0.is_empty() && g.1.elapsed() >= Duration::from_millis(50) {
+                let b = std::mem::take(&mut g.0);
+                let _ = out.write_all(&b);
+            }
+            if g.2 {
+                break;
+            }
+        });
+        IdleFlush { inner, st }
+    }
+}
+
+impl Write for IdleFlush {
+    fn write(&mut self, buf: &[u8]) -> io::Result<usize> {
+        let mut g = self.st.lock().unwrap();
+        g.0.extend_from_slice(buf);
+        g.1 = Instant::now();
+        if g.0.len() >= 8192 {
+            let b = std::mem::take(&mut g.0);
+            self.inner.write_all(&b)?;
+        }
+        Ok(buf.len())
+    }
+    fn flush(&mut self) -> io::Result<()> {
+        Ok(())
+    }
+}
+
+impl Drop for IdleFlush {
+    fn drop(&mut self) {
+        let mut g = self.st.lock().unwrap();
+        let b = std::mem::take(&mut g.0);
+        let _ = self.inner.write_all(&b);
+        g.2 = true;
+    }
+}
+
+fn mutant() -> String {
+    std::env::var("AGVERIF_C15_MUTANT").unwrap_or_default()
 }
 
 // ------------------------------------------------------------------------------------------------
@@ -809,10 +874,10 @@ fn check_stream(ctx: &mut Ctx, fam: &str, key: &str, c: &StreamCase, chunks: &[V
     let sink = Sink::default();
     // self-test of the oracle (AGVERIF_C15_MUTANT=bufsink): a buffering layer between renderer and
     // consumer must be reported as C15/buffering-delay
-    let run = if std::env::var("AGVERIF_C15_MUTANT").map(|v| v == "bufsink").unwrap_or(false) {
-        start(&c.query, &c.mode, gate.reader(), io::BufWriter::with_capacity(1 << 16, sink.clone()))
-    } else {
-        start(&c.query, &c.mode, gate.reader(), sink.clone())
+    let run = match mutant().as_str() {
+        "bufsink" => start(&c.query, &c.mode, gate.reader(), io::BufWriter::with_capacity(1 << 16, sink.clone())),
+        "idleflush" => start(&c.query, &c.mode, gate.reader(), IdleFlush::new(sink.clone())),
+        _ => start(&c.query, &c.mode, gate.reader(), sink.clone()),
     };
     let info = |extra: serde_json::Value| {
         let mut j = json!({"query": c.query, "mode": c.mode, "lines": c.lines.len(), "kind": c.kind, "chunking": style, "chunks": chunks.len(),
@@ -1156,6 +1221,195 @@ fn check_proc_volume(ctx: &mut Ctx, bin: &str, n: usize, final_newline: bool, st
 
 // ------------------------------------------------------------------------------------------------
 
+// ------------------------------------------------------------------------------------------------
+// trickle: steady input faster than the poll timeout, nobody waits for output
+// ------------------------------------------------------------------------------------------------
+
+struct TrickleObs {
+    samples: usize,
+    /// (sample time s, rows that had to be visible, rows visible when input stopped flowing)
+    failed: Vec<(f64, usize, usize)>,
+    max_gap_ms: u64,
+    secs: f64,
+    released: usize,
+    write_failed: bool,
+}
+
+/// Release `n` complete lines, one every `gap_ms`; from 1.15 s on, every 200 ms, note how many rows
+/// belong to lines released at least 1 s earlier; such a target fails only if it is still not met
+/// when the last line has been released (i.e. during the whole time further input kept arriving).
+fn trickle(release: &mut dyn FnMut(usize) -> bool, rows_seen: &dyn Fn() -> usize, rows_after: &dyn Fn(usize) -> usize, n: usize, gap_ms: u64) -> TrickleObs {
+    let t0 = Instant::now();
+    let mut rel_at: Vec<Instant> = Vec::with_capacity(n);
+    let mut pending: Vec<(f64, usize)> = vec![];
+    let mut next_sample = Duration::from_millis(1150);
+    let mut o = TrickleObs { samples: 0, failed: vec![], max_gap_ms: 0, secs: 0.0, released: 0, write_failed: false };
+    let mut last = Instant::now();
+    for i in 0..n {
+        if !release(i) {
+            o.write_failed = true;
+            break;
+        }
+        let now = Instant::now();
+        if i > 0 {
+            o.max_gap_ms = o.max_gap_ms.max(now.duration_since(last).as_millis() as u64);
+        }
+        last = now;
+        rel_at.push(now);
+        o.released = i + 1;
+        if now.duration_since(t0) >= next_sample {
+            let old = rel_at.iter().filter(|t| now.duration_since(**t) >= Duration::from_secs(1)).count();
+            let want = rows_after(old);
+            if want > 0 {
+                pending.push((now.duration_since(t0).as_secs_f64(), want));
+                o.samples += 1;
+            }
+            next_sample += Duration::from_millis(200);
+        }
+        if !pending.is_empty() {
+            let seen = rows_seen();
+            pending.retain(|(_, w)| seen < *w);
+        }
+        std::thread::sleep(Duration::from_millis(gap_ms));
+    }
+    // the input stops flowing now: whatever is still missing was held back the whole time
+    let seen = rows_seen();
+    for (t, w) in pending {
+        if seen < w {
+            o.failed.push((t, w, seen));
+        }
+    }
+    o.secs = t0.elapsed().as_secs_f64();
+    o
+}
+
+fn trickle_params(r: &mut Rng) -> (usize, u64, &'static str, &'static str, usize) {
+    let gap_ms = 5 + r.below(6) as u64; // 5 … 10 ms, far below the 50 ms poll
+    let n = (1900 / gap_ms as usize).max(150) + r.below(30);
+    let (q, from) = *r.pick(&[("* | json", 0usize), ("* | json | where i >= 10", 10), ("* | json | where i != 3", usize::MAX)]);
+    let mode = *r.pick(&["logfmt", "json", "format={i}"]);
+    (n, gap_ms, q, mode, from)
+}
+
+fn trickle_rows_after(from: usize, k: usize) -> usize {
+    if from == usize::MAX {
+        // `where i != 3`
+        if k > 3 { k - 1 } else { k }
+    } else {
+        k.saturating_sub(from)
+    }
+}
+
+/// returns false when the case was not conclusive (the producer's pacing was disturbed) and
+/// `last` is false: the caller runs it again
+fn trickle_verdict(ctx: &mut Ctx, fam: &str, key: &str, o: &TrickleObs, total_ok: Option<bool>, info: serde_json::Value, last: bool) -> bool {
+    let detail = json!({"samples": o.samples, "max_gap_ms": o.max_gap_ms, "secs": o.secs, "released": o.released,
+        "late": o.failed.iter().map(|(t, w, s)| json!({"sample_at_s": t, "rows_due": w, "rows_visible_when_input_stopped": s})).collect::<Vec<_>>()});
+    if !o.failed.is_empty() {
+        ctx.case(fam, key, "viol", json!({"class": "C15/buffering-delay",
+            "what": "steady input (gaps far below the 50 ms poll): rows of lines released more than 1 s earlier were still not visible to the consumer while further input kept arriving",
+            "case": info, "detail": detail}));
+    } else if total_ok == Some(false) || o.write_failed {
+        ctx.case(fam, key, "viol", json!({"class": "C15/loss-dup-reorder", "what": "trickle: total output differs from the expected one (or the input could not be delivered)", "case": info, "detail": detail}));
+    } else if total_ok.is_none() {
+        ctx.case(fam, key, "viol", json!({"class": "C15/no-termination", "what": "trickle: the run did not end after EOF", "case": info, "detail": detail}));
+    } else if o.samples < 3 || o.max_gap_ms >= 40 {
+        if !last {
+            return false;
+        }
+        ctx.case(fam, "", "skip", json!({"why": "producer pacing disturbed (a gap of 40 ms or more, or fewer than 3 sample points): not conclusive", "case": info, "detail": detail}));
+    } else {
+        ctx.case(fam, key, "pass", json!({"case": info, "detail": detail}));
+    }
+    true
+}
+
+fn check_trickle_inproc(ctx: &mut Ctx, g: usize) {
+    for attempt in 0..3 {
+        if trickle_inproc_once(ctx, g, attempt == 2) {
+            break;
+        }
+    }
+}
+
+fn trickle_inproc_once(ctx: &mut Ctx, g: usize, last: bool) -> bool {
+    let mut r = case_rng(ctx.seed, 5, g);
+    let (n, gap_ms, q, mode, from) = trickle_params(&mut r);
+    let lines: Vec<Vec<u8>> = (0..n).map(|i| format!("{{\"i\":{}}}\n", i).into_bytes()).collect();
+    let all: Vec<u8> = lines.concat();
+    let expected = imp::run(q, &all, mode, 30).stdout;
+    let gate = Gate::default();
+    let sink = Sink::default();
+    let run = if mutant() == "idleflush" { start(q, mode, gate.reader(), IdleFlush::new(sink.clone())) } else { start(q, mode, gate.reader(), sink.clone()) };
+    let o = trickle(&mut |i| { gate.release(&lines[i]); true }, &|| sink.newlines(), &|k| trickle_rows_after(from, k), n, gap_ms);
+    gate.eof();
+    let fin = run.wait(Duration::from_secs(30));
+    let total_ok = fin.as_ref().map(|f| f.panicked.is_none() && sink.bytes() == expected);
+    let info = json!({"where": "in-process", "query": q, "mode": mode, "lines": n, "gap_ms": gap_ms, "output_bytes": expected.len()});
+    trickle_verdict(ctx, "trickle", &format!("trickle:{}", g), &o, total_ok, info, last)
+}
+
+fn check_trickle_binary(ctx: &mut Ctx, bin: &str, g: usize) {
+    for attempt in 0..3 {
+        if trickle_binary_once(ctx, bin, g, attempt == 2) {
+            break;
+        }
+    }
+}
+
+fn trickle_binary_once(ctx: &mut Ctx, bin: &str, g: usize, last: bool) -> bool {
+    use std::sync::atomic::AtomicUsize;
+    let mut r = case_rng(ctx.seed, 6, g);
+    let (n, gap_ms, q, mode, from) = trickle_params(&mut r);
+    let lines: Vec<Vec<u8>> = (0..n).map(|i| format!("{{\"i\":{}}}\n", i).into_bytes()).collect();
+    let all: Vec<u8> = lines.concat();
+    let expected = imp::run(q, &all, mode, 30).stdout;
+    let mut child = match Command::new(bin).args([q, "-o", mode]).env("RUST_BACKTRACE", "0").stdin(Stdio::piped()).stdout(Stdio::piped()).stderr(Stdio::null()).spawn() {
+        Ok(c) => c,
+        Err(e) => {
+            ctx.case("trickle", "", "skip", json!({"why": "cannot spawn the binary", "err": e.to_string()}));
+            return true;
+        }
+    };
+    let mut si = child.stdin.take().unwrap();
+    let mut so = child.stdout.take().unwrap();
+    let rows = Arc::new(AtomicUsize::new(0));
+    let rows2 = rows.clone();
+    let reader = std::thread::spawn(move || {
+        let mut all = Vec::new();
+        let mut buf = [0u8; 4096];
+        loop {
+            match so.read(&mut buf) {
+                Ok(0) | Err(_) => break,
+                Ok(k) => {
+                    rows2.fetch_add(buf[..k].iter().filter(|b| **b == b'\n').count(), Ordering::SeqCst);
+                    all.extend_from_slice(&buf[..k]);
+                }
+            }
+        }
+        all
+    });
+    let o = trickle(&mut |i| si.write_all(&lines[i]).and_then(|_| si.flush()).is_ok(), &|| rows.load(Ordering::SeqCst), &|k| trickle_rows_after(from, k), n, gap_ms);
+    drop(si);
+    let t0 = Instant::now();
+    let mut exited = false;
+    while t0.elapsed() < Duration::from_secs(10) {
+        if let Ok(Some(_)) = child.try_wait() {
+            exited = true;
+            break;
+        }
+        std::thread::sleep(Duration::from_millis(5));
+    }
+    if !exited {
+        let _ = child.kill();
+        let _ = child.wait();
+    }
+    let got = reader.join().unwrap_or_default();
+    let total_ok = if exited { Some(got == expected) } else { None };
+    let info = json!({"where": "binary on pipes", "query": q, "mode": mode, "lines": n, "gap_ms": gap_ms, "output_bytes": expected.len()});
+    trickle_verdict(ctx, "trickle", &format!("trickle-bin:{}", g), &o, total_ok, info, last)
+}
+
 /// key of the case to re-run when `--replay FILE` is given (FILE as written by bin/check)
 pub fn replay_key(ctx: &Ctx) -> Option<String> {
     let path = ctx.replay.clone()?;
@@ -1231,6 +1485,32 @@ pub fn check(ctx: &mut Ctx) {
         let mut r = case_rng(ctx.seed, 3, g);
         check_agg(ctx, &mut r, g);
     }
+    // 3b. trickle: a few cases, each on its own shard (they take about 2 s of real time each)
+    let (n_in, n_bin) = if thorough { (24, 6) } else { (6, 2) };
+    let tr_in: Vec<usize> = match &only {
+        Some(k) => k.strip_prefix("trickle:").and_then(|n| n.parse().ok()).into_iter().collect(),
+        None => (0..n_in).filter(|g| g % ctx.nshards == ctx.shard).collect(),
+    };
+    for g in tr_in {
+        check_trickle_inproc(ctx, g);
+    }
+    let tr_bin: Vec<usize> = match &only {
+        Some(k) => k.strip_prefix("trickle-bin:").and_then(|n| n.parse().ok()).into_iter().collect(),
+        None => (0..n_bin).filter(|g| (g + 8) % ctx.nshards == ctx.shard).collect(),
+    };
+    let mut bin: Option<Result<String, String>> = None;
+    for g in tr_bin {
+        if bin.is_none() {
+            bin = Some(ensure_binary());
+        }
+        match bin.as_ref().unwrap() {
+            Err(e) => ctx.case("trickle", "", "skip", json!({"why": "binary not available", "err": e})),
+            Ok(b) => {
+                let b = b.clone();
+                check_trickle_binary(ctx, &b, g)
+            }
+        }
+    }
     // 4. volume, stalled consumer, binary: one job per shard
     let mut jobs: Vec<(&str, usize, bool, u64)> = vec![
         ("vol", 0, true, 0),
@@ -1262,7 +1542,6 @@ pub fn check(ctx: &mut Ctx) {
             ("bin-paced", 4, false, 400),
         ]);
     }
-    let mut bin: Option<Result<String, String>> = None;
     for (j, (kind, n, nl, extra)) in jobs.iter().enumerate() {
         let jkey = match *kind {
             "vol" => format!("volume:{}:{}", n, nl),
